@@ -4,6 +4,7 @@ import Driver.C04
 import Driver.C10
 import Driver.C11
 import Driver.C15
+import Driver.C01
 open Lean Driver
 
 def handlers : List (String × Handler) := [
@@ -11,7 +12,8 @@ def handlers : List (String × Handler) := [
   ("C04", Driver.C04.handle),
   ("C10", Driver.C10.handle),
   ("C11", Driver.C11.handle),
-  ("C15", Driver.C15.handle)
+  ("C15", Driver.C15.handle),
+  ("C01", Driver.C01.handle)
 ]
 
 def processLine (line : String) : String :=
